@@ -6,7 +6,7 @@ props = {json.loads(l)["id"]: json.loads(l) for l in open(os.path.join(ROOT, "pr
 names = sorted(os.listdir(os.path.join(ROOT, "seeded")))
 # results of running an older snapshot of the checks (before the strengthening a seed prompted) against the seed
 before = {}
-for fn, sfx in (("oldwave.done", "-d"), ("old5.done", ""), ("old6.done", ""), ("seedwave7.first", ""), ("seedwave8.first", ""), ("seedwave9.first", ""), ("seedwave10.first", ""), ("seedwave11.first", ""), ("seedwave12.first", ""), ("seedwave13.first", ""), ("seedwave14.first", "")):
+for fn, sfx in (("oldwave.done", "-d"), ("old5.done", ""), ("old6.done", ""), ("seedwave7.first", ""), ("seedwave8.first", ""), ("seedwave9.first", ""), ("seedwave10.first", ""), ("seedwave11.first", ""), ("seedwave12.first", ""), ("seedwave13.first", ""), ("seedwave14.first", ""), ("seedwave15.first", "")):
     path = os.path.join(ROOT, "work", fn)
     if os.path.exists(path):
         for l in open(path, errors="replace"):
